@@ -219,6 +219,8 @@ def run(prop, tier, seed):
     # the echo of commands (print_un_opt_codes, raw = true) as rendered here against the listing model coq/Model/Listing.v
     echo = []
     for k in range(n):
+        if C.timed_out(model[k]):
+            continue
         for ev in model[k].split("|")[:-1]:
             if ev.startswith("C:") and ev[2:]:
                 echo.append((k, ev[2:]))
@@ -234,6 +236,9 @@ def run(prop, tier, seed):
         cls, out, err = reals[k]
         got = out.decode("utf-8", "replace")
         gerr = err.decode("utf-8", "replace")
+        if C.timed_out(model[k]):
+            hist["evaluator-timeout-skipped"] += 1
+            continue
         parts = model[k].split("|")
         end = parts[-1][4:]
         events = parts[:-1]
